@@ -366,6 +366,12 @@ func (w *World) openDump(dir string) (*DumpT, string) {
 	so, po := w.storeOptions()
 	so.CollectionOptions.OnError = nil
 	po.CompactionConcern = moss.CompactionDisable
+	if w.vfs != nil {
+		// the copy is opened outside the history under test: an injected fault that is still pending must not hit it
+		was := w.vfs.Suspended
+		w.vfs.Suspended = true
+		defer func() { w.vfs.Suspended = was }()
+	}
 	t := w.s.Spawn("open-copy", func() {
 		st, c, err := moss.OpenStoreCollection(dir, so, po)
 		if err != nil {
